@@ -114,8 +114,10 @@ fn guarded(which: &str, label: String, f: impl FnOnce() -> Result<(), String> + 
 }
 
 fn run_case(which: &'static str, c: Case, seed: u64) -> Result<(), String> {
+    let stream_only = which == "C05";
     for reverse in [false, true] {
         for limit in [None, Some(1usize), Some(2)] {
+            if stream_only { break; }
             // ---- for_each_concurrent_with
             let cc = Case { n: c.n, accs: c.accs.clone(), edges: c.edges.clone(), desc: c.desc.clone() };
             let label = format!("for_each_concurrent_with(limit={limit:?}, reverse={reverse}) on {}", c.desc);
@@ -162,7 +164,7 @@ fn run_case(which: &'static str, c: Case, seed: u64) -> Result<(), String> {
         // ---- fold_async_with
         let cc = Case { n: c.n, accs: c.accs.clone(), edges: c.edges.clone(), desc: c.desc.clone() };
         let label = format!("fold_async_with(reverse={reverse}) on {}", c.desc);
-        guarded(which, label, move || {
+        if !stream_only { guarded(which, label, move || {
             let (g, ids) = build(&cc);
             let opts = if reverse { StreamOpts::new().rev() } else { StreamOpts::new() };
             let outcome = futures::executor::block_on(g.fold_async_with(Vec::<Ev>::new(), opts, |mut t, f| Box::pin(async move {
@@ -174,7 +176,7 @@ fn run_case(which: &'static str, c: Case, seed: u64) -> Result<(), String> {
                 return Err(format!("C03/C09: fold_async_with returned {:?} with not processed {:?} in a clean run ({})", outcome.state, outcome.fn_ids_not_processed, cc.desc));
             }
             r
-        })??;
+        })??; }
         // ---- stream: hold FnRefs, drop in pseudo-random order, poll by hand
         let cc = Case { n: c.n, accs: c.accs.clone(), edges: c.edges.clone(), desc: c.desc.clone() };
         let label = format!("stream_with(reverse={reverse}) on {}", c.desc);
@@ -213,7 +215,7 @@ fn run_case(which: &'static str, c: Case, seed: u64) -> Result<(), String> {
         })??;
     }
     // ---- try_for_each_concurrent with a failing set
-    if c.n > 0 {
+    if c.n > 0 && !stream_only {
         let cc = Case { n: c.n, accs: c.accs.clone(), edges: c.edges.clone(), desc: c.desc.clone() };
         let label = format!("try_for_each_concurrent on {}", c.desc);
         guarded(which, label, move || {
@@ -240,7 +242,7 @@ fn run_case(which: &'static str, c: Case, seed: u64) -> Result<(), String> {
         })??;
     }
     // ---- the _mut try variants incl. the control wrapper, with a failing set (C07, C09)
-    if c.n > 0 {
+    if c.n > 0 && !stream_only {
         for variant in 0..2 {
             let cc = Case { n: c.n, accs: c.accs.clone(), edges: c.edges.clone(), desc: c.desc.clone() };
             let label = format!("try_for_each_concurrent{}_mut on {}", if variant == 1 { "_control" } else { "" }, c.desc);
